@@ -264,11 +264,11 @@ func init() {
 	engine.Register(&engine.Check{
 		ID: "C07", Name: "type-names", Level: "model_checking",
 		Rule: "names = the vocabulary table (57 names) united with every name of the live type lists, the empty name and 3 names outside the vocabulary; channels = registry, JSON top level / nested in a single-item " +
-			"property / nested in a list, gob top level / nested in item / nested in list; configurations = hooks unset / hooks set; complete cross product, plus family-list membership, IsObject/IsLink/IsCollection and the " +
+			"property / nested in a list (each also with every string spelled in \\uXXXX escapes), JSON arrays in which a member of a non-vocabulary type precedes or surrounds the value (top level and single-item position), gob top level / nested in item / nested in list; configurations = hooks unset / hooks set; complete cross product, plus family-list membership, IsObject/IsLink/IsCollection and the " +
 			"On*/To* acceptance matrix per name; marker value = id, name and every family-specific property of the struct; non-trivial = a vocabulary name",
 		Assumptions: []string{"the vocabulary table in c07.go is the independent ground truth (written from the ActivityStreams vocabulary)", "reading D3 for generic and unknown names"},
 		Bound: func(string) string {
-			return "complete: ~61 names x 7 channels x 2 hook configurations + membership and helper matrices (same in both tiers)"
+			return "complete: ~61 names x 13 channels x 2 hook configurations + membership and helper matrices (same in both tiers)"
 		},
 		Shards: 8,
 		Run:    c07Run,
